@@ -280,6 +280,9 @@ func scenariosFor(tier string) []vrt.Scenario {
 		}
 		s := scenario(c)
 		s.Bound = b
+		if c.cancelAt >= 0 || c.maxDur == ms(1010) {
+			s.Weight = 5 // the heavy ones get a larger share of the time budget
+		}
 		if c.cancelAt >= 0 || c.conc > 1 || strings.HasPrefix(c.mode, "file") {
 			// a caller cancel wakes half a dozen threads at once and the free
 			// switches among them alone do not complete: delay-bounded policy,
